@@ -126,3 +126,88 @@ func verifyRule(typ int) string {
 	}
 	return "None"
 }
+
+// ---- more shapes (deepening round) ----
+
+type Lvl3 struct {
+	Z  uint32 `dialsalias:"old_z"`
+	S  []string
+	Pt *int
+}
+type Lvl2 struct {
+	Name string `dials:"nm2" dialsalias:"old_nm2"`
+	L3   *Lvl3  `dialsalias:"old_l3"`
+	V3   Lvl3
+}
+type Cfg6 struct {
+	Top  bool
+	L2   *Lvl2 `dialsalias:"old_l2"`
+	V2   Lvl2
+	Last rty.NLevel `dialsalias:"old_last" dialsenvalias:"OLD_LAST_ENV"`
+}
+
+type Row struct {
+	ID    int `dialsalias:"old_id"`
+	Label rty.NName
+	Sub   struct {
+		W float64
+		T []string
+	}
+}
+type Cfg7 struct {
+	Rows   []Row
+	ByName map[string]Row
+	IDs    map[int]struct{}
+	Names  map[rty.NName]struct{}
+	Fixed  [2]Row
+	Durs   map[string]time.Duration
+}
+
+type EmbV struct {
+	EV  int `dials:"ev_tag"`
+	EVS []int
+}
+type EmbP struct {
+	EP  string `dialsalias:"old_ep"`
+	EPM rty.NMap
+}
+type Cfg8 struct {
+	EmbV
+	*EmbP
+	NS   rty.NStrs
+	PI   *int
+	PSl  *[]string
+	PD   *time.Duration
+	PMap *map[string]int
+}
+
+type Cfg9 struct {
+	A string        `dials:"alpha" dialsalias:"old_alpha" dialsenvalias:"OLD_ALPHA" dialsflagalias:"old-alpha-flag"`
+	B int           `dialsalias:"old_b" dialsdesc:"the b"`
+	C bool          `dialsenv:"CUR_C" dialsenvalias:"OLD_C" dialsalias:"old_c"`
+	D time.Duration `dialspflag:"dee" dialspflagalias:"old-dee" dialsalias:"old_d"`
+	E float64       `dials:"-"`
+	F uint8         `dialsalias:"old_f"`
+	G struct {
+		H int16 `dialsalias:"old_h"`
+		I string
+	} `dialsalias:"old_g"`
+}
+
+type Cfg10 struct {
+	Arr  [3]int
+	C64  complex64
+	F32  float32
+	I8   int8
+	U64  uint64
+	TU   rty.TUp
+	PTU  *rty.TUp
+	Nest struct {
+		Deep struct {
+			Deeper struct {
+				X string `dialsalias:"old_x"`
+				Y *bool
+			}
+		}
+	}
+}
